@@ -206,6 +206,130 @@ Proof.
   split; [exact Hbb|]. split; [exact Hn|]. exists kk1, kk2. auto.
 Qed.
 
+(** *** from hash material to the trees: ordinary cells of level 0 *)
+(* an ordinary tree: no exotic cell, level mask 0, type 0, at most 4 references,
+   all the way down.  (With pruned branches this is false by design: a pruned
+   branch has the level-0 hash of the cell it replaces.) *)
+Fixpoint plain (c : cell) : Prop :=
+  match c with
+  | Cell sp ty m _ refs =>
+      sp = false /\ ty = 0%N /\ m = 0%N /\ (length refs <= 4)%nat /\
+      (fix all (rs : list cell) : Prop :=
+         match rs with [] => True | ch :: t => plain ch /\ all t end) refs
+  end.
+
+Lemma plain_all_Forall refs :
+  (fix all (rs : list cell) : Prop :=
+     match rs with [] => True | ch :: t => plain ch /\ all t end) refs <-> Forall plain refs.
+Proof.
+  induction refs as [|r t IH]; [split; constructor|]. split.
+  - intros (A & B). constructor; [exact A|apply IH; exact B].
+  - intros F. inversion F; subst. split; [assumption|apply IH; assumption].
+Qed.
+
+Hypothesis H_len : forall x, length (H x) = 32%nat.
+
+Lemma kids_at_Forall2 j rs ks :
+  kids_at j rs = Ok ks -> Forall2 (fun r k => hd_at H r j = Ok k) rs ks.
+Proof.
+  revert ks. induction rs as [|r t IH]; intros ks E; cbn [kids_at] in E.
+  - injection E as <-. constructor.
+  - destruct (hd_at H r j) as [x|e|p] eqn:Er; try discriminate.
+    destruct (kids_at j t) as [xs|e|p]; try discriminate. injection E as <-.
+    constructor; [exact Er|apply IH; reflexivity].
+Qed.
+
+Lemma plain_hash_len data refs i h d :
+  hd_at H (Cell false 0 0 data refs) i = Ok (h, d) -> length h = 32%nat /\ (d < 65536)%N.
+Proof.
+  rewrite hd_at_plain. destruct (kids_at 0 refs) as [ks|e|p]; cbn [bind]; try discriminate.
+  unfold level_repr.
+  destruct (negb (length refs =? 0)%nat && (1024 <=? fold_left N.max (map snd ks) 0)%N) eqn:Ec; [discriminate|].
+  intros E. injection E as <- <-. split; [apply H_len|].
+  destruct (length refs =? 0)%nat; [lia|]. cbn [negb andb] in Ec. apply N.leb_gt in Ec. lia.
+Qed.
+
+Lemma be16_inj a b : (a < 65536)%N -> (b < 65536)%N -> be16 a = be16 b -> a = b.
+Proof.
+  unfold be16. intros Ha Hb E. injection E as E1 E2.
+  rewrite (N.mod_small (a / 256) 256) in E1 by (apply N.div_lt_upper_bound; lia).
+  rewrite (N.mod_small (b / 256) 256) in E1 by (apply N.div_lt_upper_bound; lia).
+  rewrite (N.div_mod a 256), (N.div_mod b 256) by lia. rewrite E1, E2. reflexivity.
+Qed.
+
+Lemma app_inv_len {A} (a b c d : list A) : length a = length c -> a ++ b = c ++ d -> a = c /\ b = d.
+Proof.
+  revert c. induction a as [|x a IH]; intros [|y c] L E; cbn [length] in L; try lia.
+  - split; [reflexivity|exact E].
+  - cbn [app] in E. injection E as -> E. destruct (IH c ltac:(lia) E) as (-> & ->). split; reflexivity.
+Qed.
+
+(* equal material of equally many kids whose hashes are 32 bytes and whose
+   depths fit 16 bits: the kids agree pairwise *)
+Lemma kid_material_inj : forall k1 k2 : list (bytes * N),
+  length k1 = length k2 ->
+  Forall (fun k => length (fst k) = 32%nat /\ (snd k < 65536)%N) k1 ->
+  Forall (fun k => length (fst k) = 32%nat /\ (snd k < 65536)%N) k2 ->
+  kid_material k1 = kid_material k2 -> k1 = k2.
+Proof.
+  intros k1 k2 Hl F1 F2 E. unfold kid_material in E.
+  assert (Lf : forall k : list (bytes * N), length (flat_map be16 (map snd k)) = (2 * length k)%nat).
+  { induction k as [|x t IH]; [reflexivity|]. cbn [map flat_map]. rewrite app_length, IH. cbn [be16 length]. lia. }
+  assert (LL : length (flat_map be16 (map snd k1)) = length (flat_map be16 (map snd k2))) by (rewrite !Lf; lia).
+  destruct (app_inv_len _ _ _ _ LL E) as (A & B). clear E Lf LL.
+  revert k2 Hl F2 A B. induction k1 as [|[h1 d1] t1 IH]; intros [|[h2 d2] t2] Hl F2 A B;
+    cbn [length] in Hl; try lia; [reflexivity|].
+  apply Forall_cons_iff in F1. destruct F1 as ((L1 & D1) & F1').
+  apply Forall_cons_iff in F2. destruct F2 as ((L2 & D2) & F2').
+  cbn [map flat_map concat fst snd] in *.
+  assert (L0 : length (be16 d1) = length (be16 d2)) by reflexivity.
+  destruct (app_inv_len _ _ _ _ L0 A) as (Ad & At).
+  assert (L3 : length h1 = length h2) by lia.
+  destruct (app_inv_len _ _ _ _ L3 B) as (-> & Bt).
+  apply be16_inj in Ad; try assumption. subst d2.
+  f_equal. apply IH; try assumption. lia.
+Qed.
+
+(** equal level-0 hashes of two ordinary trees: the trees are equal *)
+Theorem plain_tree_inj : forall c1 c2 i j h d1 d2,
+  plain c1 -> plain c2 ->
+  hd_at H c1 i = Ok (h, d1) -> hd_at H c2 j = Ok (h, d2) -> c1 = c2.
+Proof.
+  intros c1. remember (csize c1) as n eqn:Hn. revert c1 Hn.
+  induction n as [n IHn] using lt_wf_ind. intros c1 Hn c2 i j h d1 d2 P1 P2 E1 E2.
+  destruct c1 as [sp1 ty1 m1 b1 r1], c2 as [sp2 ty2 m2 b2 r2].
+  cbn [plain] in P1, P2. destruct P1 as (-> & -> & -> & L1 & A1). destruct P2 as (-> & -> & -> & L2 & A2).
+  apply plain_all_Forall in A1. apply plain_all_Forall in A2.
+  (* bring both to the same level index: the hash of a level-0 cell does not depend on it *)
+  rewrite hd_at_plain in E1, E2. rewrite <- (hd_at_plain b1 r1 0) in E1. rewrite <- (hd_at_plain b2 r2 0) in E2.
+  destruct (plain_hash_inj _ _ _ _ _ _ _ _ L1 L2 E1 E2) as (-> & Hlen & k1 & k2 & K1 & K2 & KM).
+  f_equal.
+  pose proof (kids_at_Forall2 _ _ _ K1) as F1. pose proof (kids_at_Forall2 _ _ _ K2) as F2.
+  assert (Q : forall rs ks, Forall plain rs -> Forall2 (fun r k => hd_at H r 0 = Ok k) rs ks ->
+                            Forall (fun k => length (fst k) = 32%nat /\ (snd k < 65536)%N) ks).
+  { intros rs ks Fp F. induction F as [|r k rs' ks' Hr F' IH]; [constructor|].
+    inversion Fp as [|? ? Pr Fp']; subst. constructor; [|apply IH; exact Fp'].
+    destruct r as [sp ty m b rr]. cbn [plain] in Pr. destruct Pr as (-> & -> & -> & _).
+    destruct k as [hh dd]. cbn [fst snd]. eapply plain_hash_len. exact Hr. }
+  assert (Ek : k1 = k2).
+  { apply kid_material_inj; try assumption.
+    - rewrite <- (Forall2_len _ _ _ F1), <- (Forall2_len _ _ _ F2). exact Hlen.
+    - exact (Q _ _ A1 F1).
+    - exact (Q _ _ A2 F2). }
+  subst k2.
+  assert (Hsz : forall ch, In ch r1 -> (csize ch < n)%nat).
+  { subst n. clear. intros ch Hin. cbn [csize]. induction r1 as [|x t IH]; [contradiction|].
+    destruct Hin as [->|Hin]; [lia|]. specialize (IH Hin). cbn [csize] in IH. lia. }
+  clear K1 K2 KM E1 E2 Hlen L1 L2 Hn.
+  revert r2 A2 F2. induction F1 as [|x k r1' ks Hx F1' IHf]; intros r2 A2 F2.
+  - inversion F2. reflexivity.
+  - inversion F2 as [|y ? r2' ? Hy F2']; subst. inversion A1 as [|? ? Px A1']; subst.
+    inversion A2 as [|? ? Py A2']; subst. destruct k as [hh dd].
+    f_equal.
+    + eapply (IHn (csize x) (Hsz x (or_introl eq_refl)) x eq_refl y 0%nat 0%nat hh dd dd); eassumption.
+    + apply IHf; try assumption. intros ch Hin. apply Hsz. right. exact Hin.
+Qed.
+
 (** message level: a different destination encoding, different body bits or a
     different number of body references give a different Hash(true) *)
 Theorem normalized_distinguishes m1 m2 s1 d1 f1 s2 d2 f2 h1 h2 :
@@ -227,6 +351,32 @@ Proof.
   rewrite A1, A2 in Heq. injection Heq as <-.
   destruct (normalized_injective d1 d2 (m_body m1) (m_body m2) h1 R1 R2 C1 C2) as (X1 & X2 & X3 & _).
   destruct Hdiff as [D|[D|D]]; contradiction.
+Qed.
+
+(** with ordinary body reference trees: the bodies are equal as trees *)
+Theorem normalized_injective_trees d1 d2 (b1 b2 : bits * list cell) h :
+  (length (snd b1) <= 4)%nat -> (length (snd b2) <= 4)%nat ->
+  Forall plain (snd b1) -> Forall plain (snd b2) ->
+  repr_hash H (canonical_cell d1 b1) = Ok h ->
+  repr_hash H (canonical_cell d2 b2) = Ok h ->
+  addr_bits (canon_dest d1) = addr_bits (canon_dest d2) /\ b1 = b2.
+Proof.
+  intros L1 L2 P1 P2 E1 E2.
+  destruct (normalized_injective d1 d2 b1 b2 h L1 L2 E1 E2) as (Hd & Hb & Hn & _).
+  split; [exact Hd|].
+  (* the body cells themselves are ordinary trees with the same level-0 hash *)
+  unfold repr_hash in E1, E2.
+  destruct (hd_at H (canonical_cell d1 b1) 3) as [[h1 dp1]|e|p] eqn:R1; cbn [res_map fst] in E1; try discriminate.
+  destruct (hd_at H (canonical_cell d2 b2) 3) as [[h2 dp2]|e|p] eqn:R2; cbn [res_map fst] in E2; try discriminate.
+  injection E1 as ->. injection E2 as ->. unfold canonical_cell in R1, R2.
+  assert (Pc : forall (b : bits * list cell), (length (snd b) <= 4)%nat -> Forall plain (snd b) ->
+               plain (Cell false 0 0 (fst b) (snd b))).
+  { intros b L P. cbn [plain]. repeat split; try assumption. apply plain_all_Forall. exact P. }
+  assert (Pr : forall (b : bits * list cell) x, (length (snd b) <= 4)%nat -> Forall plain (snd b) ->
+               plain (Cell false 0 0 x [Cell false 0 0 (fst b) (snd b)])).
+  { intros b x L P. cbn [plain]. repeat split; try (cbn [length]; lia). apply Pc; assumption. }
+  pose proof (plain_tree_inj _ _ _ _ _ _ _ (Pr b1 _ L1 P1) (Pr b2 _ L2 P2) R1 R2) as E.
+  injection E as _ E1 E2. destruct b1, b2. cbn [fst snd] in *. congruence.
 Qed.
 
 End I.
